@@ -340,8 +340,8 @@ void GridFourier::getInterpolationWeights(const double x[], double weights[]) co
         expcache[i].resize(num_oned_points);
         expcache[i][0] = std::complex<double>(1.0, 0.0);
         double theta = -2.0 * Maths::pi / ((double) num_oned_points);       // step angle
-        std::complex<double> step(std::cos(theta), std::sin(theta));
-        for(int j=1; j<num_oned_points; j++) expcache[i][j] = expcache[i][j-1] * step;
+        // each entry is computed directly, repeated multiplication by the step lets the modulus drift by more than num_tol for large levels
+        for(int j=1; j<num_oned_points; j++) expcache[i][j] = std::complex<double>(std::cos(theta * j), std::sin(theta * j));
     }
 
     // compute what we need for e^{2 \pi i x (N+1)/2}
